@@ -73,11 +73,12 @@ type scn struct {
 	Var     string // writer specific variant
 	Seed    int64
 	K       int // 0 = run to completion, k > 0 = kill before the k-th mutating call
+	Pre     int // history: the same operation was already run on this sandbox and killed before its Pre-th mutating call
 }
 
 func (s scn) line() string {
-	return fmt.Sprintf("run id=%d w=%s old=%s oldlen=%d newlen=%d perm=%s tmp=%s fail=%s var=%s seed=%d k=%d",
-		s.ID, s.Writer, s.Old, s.OldLen, s.NewLen, s.Perm, s.TmpMode, s.Fail, s.Var, s.Seed, s.K)
+	return fmt.Sprintf("run id=%d w=%s old=%s oldlen=%d newlen=%d perm=%s tmp=%s fail=%s var=%s seed=%d pre=%d k=%d",
+		s.ID, s.Writer, s.Old, s.OldLen, s.NewLen, s.Perm, s.TmpMode, s.Fail, s.Var, s.Seed, s.Pre, s.K)
 }
 
 func parseScn(line string) (scn, error) {
@@ -116,6 +117,8 @@ func parseScn(line string) (scn, error) {
 			s.Seed = n
 		case "k":
 			s.K = int(n)
+		case "pre":
+			s.Pre = int(n)
 		default:
 			return s, fmt.Errorf("unknown field %q", k)
 		}
@@ -127,8 +130,16 @@ func parseScn(line string) (scn, error) {
 func pattern(seed int64, cid, n int) []byte {
 	b := make([]byte, n)
 	rand.New(rand.NewSource(seed*1000003 + int64(cid)*7919 + 17)).Read(b)
-	if n > 0 {
-		b[0] = 0xA0 + byte(cid)
+	// every third seed: the content starts with bytes that mean something to some layer (archive / compression
+	// magic, BOM, JSON, a portbase record header, NULs); old and new then share that prefix
+	dict := [][]byte{{0x1f, 0x8b, 0x08}, []byte("PK\x03\x04"), {0xEF, 0xBB, 0xBF}, []byte("{\"a\":"), []byte("null"), {1, 0}, {0, 0, 0, 0}, []byte("-----BEGIN")}
+	off := 0
+	if seed%3 == 0 {
+		d := dict[int(seed/3)%len(dict)]
+		off = copy(b, d)
+	}
+	if n > off {
+		b[off] = 0xA0 + byte(cid)
 	}
 	return b
 }
@@ -543,6 +554,19 @@ func execute(s scn, base string) *runOut {
 		return &runOut{err: "build: " + err.Error()}
 	}
 	self, _ := os.Executable()
+	if s.Pre > 0 {
+		// history: an earlier, interrupted run of the same operation on the same sandbox
+		pre := *b.spec
+		pre.KillAt, pre.Readers = s.Pre, 0
+		pp := filepath.Join(b.spec.Meta, "spec-pre.json")
+		js, _ := json.Marshal(&pre)
+		if err := os.WriteFile(pp, js, 0o644); err != nil {
+			return &runOut{err: "pre-run spec: " + err.Error()}
+		}
+		if out, err := exec.Command(self, "__trace", pp).CombinedOutput(); err != nil {
+			return &runOut{err: fmt.Sprintf("pre-run tracer: %v %s", err, strings.TrimSpace(string(out)))}
+		}
+	}
 	cmd := exec.Command(self, "__trace", b.specPath)
 	var stderr bytes.Buffer
 	cmd.Stderr = &stderr
